@@ -1,7 +1,8 @@
 import GuppyVerif.Spec.C21
+import GuppyVerif.Model.C21Return
 /-! # C21 — Comptime functions agree with regular Guppy functions (partial: operator dispatch)
 
-Every theorem in this file is a **table `decide`**: the domains are finite tables regenerated from /repo on every run
+Every theorem in this file except `trace_outputs_match_signature` (structural, by cases on the result type) is a **table `decide`**: the domains are finite tables regenerated from /repo on every run
 (19 operators × 40 operand shapes, 41 mixin methods, the acceptance table), so each proof is a complete enumeration;
 no unbounded quantifier is being approximated and none of them is a structural proof.
 What is proved is agreement of the *selection* (implementing type, operator, source operand order) of the two
@@ -64,6 +65,27 @@ theorem const_left_differs_only_by_reflection :
 /-- unary operators: same dunder of the operand's type, or both fail. -/
 theorem unary_agree : ∀ op ∈ allUOps, ∀ t ∈ allTys, comptimeU tables op t = regularU tables op t := by
   decide +kernel
+
+/-- **C21 (return row)** — structural, for every result type (any nesting): the wires a traced comptime function
+    hands to its Output are exactly the row of its signature — which is also what the regular twin returns.  The
+    thresholds are regenerated from the AST of `trace_function`; with `len(out_tys) > 1` for the unpack branch the
+    statement is false for every one-element tuple (`example` below). -/
+theorem trace_outputs_match_signature (t : RTy) :
+    traceWires unpackNeedsTuple unpackIfLenGt singleIfLenGt t = sigRow t := by
+  have h1 : unpackNeedsTuple = true := rfl
+  have h2 : unpackIfLenGt = 0 := rfl
+  have h3 : singleIfLenGt = 0 := rfl
+  rw [h1, h2, h3]
+  cases t with
+  | atom n => simp [traceWires, sigRow, RTy.isTuple]
+  | none => simp [traceWires, sigRow, RTy.isTuple]
+  | tuple es =>
+    cases es with
+    | nil => simp [traceWires, sigRow, RTy.isTuple]
+    | cons e r => simp [traceWires, sigRow, RTy.isTuple]
+
+example : traceWires true 1 0 (.tuple [.atom 0]) = [.tuple [.atom 0]] ∧ sigRow (.tuple [.atom 0]) = [.atom 0] :=
+  ⟨rfl, rfl⟩
 
 /-! Non-vacuity and sensitivity. -/
 -- the tables are populated, some dispatches succeed directly, some through the reflected fallback, some fail
